@@ -206,6 +206,35 @@ func c11Generate(tier string, rng *core.Rand) []*c11Lit {
 			}
 		}
 	}
+	// 3b. hole sequences: every sequence of 1..4 holes over three names (repetitions in every
+	// position), bare and with text between, so that each hole is checked against ITS value
+	for form := 2; form < 4; form++ {
+		names := []int{0, 1, 3} // hi, hs, hneg
+		var rec func(seq []int)
+		rec = func(seq []int) {
+			if len(seq) > 0 {
+				var bare, sep []c11Piece
+				for i, h := range seq {
+					bare = append(bare, c11Piece{"", h})
+					if i > 0 {
+						sep = append(sep, c11Piece{",", -1})
+					}
+					sep = append(sep, c11Piece{"", h})
+				}
+				addPieces("hole-sequence", form, bare)
+				if len(seq) > 1 {
+					addPieces("hole-sequence-separated", form, sep)
+				}
+			}
+			if len(seq) == 4 {
+				return
+			}
+			for _, h := range names {
+				rec(append(append([]int{}, seq...), h))
+			}
+		}
+		rec(nil)
+	}
 	// 4. random bodies
 	n := 2000
 	if tier == "thorough" {
@@ -275,7 +304,7 @@ func runC11(r *core.Run, tier string) {
 		r.Inconclusive("fc does not build: " + err.Error())
 		return
 	}
-	r.Rule("a case is one literal in one of the four forms (\"..\", `..`, $\"..\", $`..`): every printable ASCII character, newline, tab and 64 multi-byte code points (2-, 3- and 4-byte) alone and between two letters (minus the characters that are syntax of the form), the four escapes, \\{ \\}, percent signs, holes of type int / string / bool / negative int / empty string / slice / record / tuple / record field at start, middle, end and adjacent, and seeded random bodies; the program prints each literal framed as <id>:<byte length>:<bytes>; the printed bytes are compared with the value the four documented rules give; non-trivial = body non-empty; distinct by literal text")
+	r.Rule("a case is one literal in one of the four forms (\"..\", `..`, $\"..\", $`..`): every printable ASCII character, newline, tab and 64 multi-byte code points (2-, 3- and 4-byte) alone and between two letters (minus the characters that are syntax of the form), the four escapes, \\{ \\}, percent signs, holes of type int / string / bool / negative int / empty string / slice / record / tuple / record field at start, middle, end and adjacent, every sequence of 1..4 holes over three names, and seeded random bodies; the program prints each literal framed as <id>:<byte length>:<bytes>; the printed bytes are compared with the value the four documented rules give; non-trivial = body non-empty; distinct by literal text")
 	r.Assume("only the escapes \\n \\t \\\\ \\\" (and \\{ \\} in $\"..\") are written; other backslash sequences are outside the statement", "holes of union type are not asserted (their display is fc's own Stringer text); float holes are not asserted")
 	lits := c11Generate(tier, core.NewRand(r.SeedV, "c11"))
 	// pass 1: 60 literals per program; pass 2: every literal of a failing program alone
